@@ -23,6 +23,10 @@ def build(tier):
             pre += ["b_rename and b_rest and b_type and b_passive", "b_cwd_i >= 1"]
         src += hgen.cond(name, params, pre, f"L.frame({v!r}, same_user, b_logged, b_cwd_i, b_rename, b_rest, b_passive, b_data, b_type, a_data)", sig="hb.KEY")
         conds += [Cond(name, "prop", T, group=v), Cond(name + "__twin", "twin", 60, group=v)]
+    for bk in range(4):
+        name = f"inflight_{bk}"
+        src += hgen.cond(name, "ev_i: int, connect_late: bool", [f"0 <= ev_i < {len(L.A_EVENTS)}"], f"L.inflight(ev_i, {bk}, connect_late)", sig="hb.KEY")
+        conds += [Cond(name, "prop", T, group="inflight"), Cond(name + "__twin", "twin", 60, group="inflight")]
     src += hgen.cond("passive_delivery", "a_first: bool", [], "L.passive_delivery(a_first)")
     conds += [Cond("passive_delivery", "prop", T, group="passive"), Cond("passive_delivery__twin", "twin", 60, group="passive")]
     for sa in range(3):
@@ -33,7 +37,7 @@ def build(tier):
                 name = f"pair_{sa}{sb}_{'same' if su else 'diff'}"
                 src += hgen.cond(name, "lat_a: int, lat_b: int", ["1 <= lat_a <= 3 and 1 <= lat_b <= 3"] + (["lat_a != lat_b"] if q else []), f"L.pair_check({sa}, {sb}, lat_a, lat_b, {su})", sig="hb.KEY")
                 conds += [Cond(name, "prop", T + 200, group="pair"), Cond(name + "__twin", "twin", 120, group="pair")]
-    src += "\nfor _v in " + repr(verbs) + ":\n    L.frame(_v, True, True, 1, True, True, True, True, True, True)\nL.passive_delivery(True); L.precompute(); L.pair_check(0, 1, 1, 2, True)\n"
+    src += "\nfor _v in " + repr(verbs) + ":\n    L.frame(_v, True, True, 1, True, True, True, True, True, True)\nL.inflight(0, 0, True); L.inflight(1, 1, False); L.passive_delivery(True); L.precompute(); L.pair_check(0, 1, 1, 2, True)\n"
     S = aioftp.Server
     return Spec(
         pid="C17", source=src, conds=conds,
@@ -41,13 +45,14 @@ def build(tier):
         bounds={
             "frame condition": f"session A executes one command (each verb of the live table + an unknown one: {verbs}) while session B rests in a symbolic state: same or different user, logged in or not, cwd in 3 places, "
                                "pending rename / restart offset / passive listener / data connection / transfer type present or not" + (" (quick: rename, offset, type, listener always present)" if q else ""),
+            "transfer in flight": f"session B is mid-transfer (RETR / STOR / LIST / MLSD; worker waiting for its data connection, or moving data on a slow socket) while session A does one of {L.A_EVENTS}",
             "passive delivery": "two sessions with one passive listener each (PASV / EPSV), data connections made in either order",
             "pairs": "two real Clients over SimNet on disjoint subtrees running {upload, download at an offset, rename + TYPE + REST + list}; per-client network latency 1..3 ms (symbolic) decides the interleaving; same or different user",
         },
         outside=["more than two sessions", "sessions working on the same paths (no isolation promised there)", "interleavings below the granularity of network deliveries in the pair harness (the frame condition covers single steps)"]
                 + ([f"verbs without a frame argument in the harness table: {missing}"] if missing else []),
         explanation=(
-            "Frame condition on the real dispatcher: two sessions live on one Server; while A executes one command, every entry of B's Connection container (identity of futures' results and values: login state, cwd, "
+            "Frame condition on the real dispatcher: two sessions live on one Server (no mutable container of one session's Connection is the same object in the other's); while A executes one command, every entry of B's Connection container (identity of futures' results and values: login state, cwd, "
             "pending rename, restart offset, transfer type, passive listener, data connection), B's transcript and B's data connection stay untouched, and B's next PWD still answers from B's own state. "
             "Accepted data connections reach the session owning the listener. Two real clients interleaved by symbolic latencies get exactly the results of their solo runs and the final tree is the union of the solo effects."
         ),
